@@ -24,8 +24,12 @@ CHECKS["C10"] = dict(
          "(ended or silence > share timeout or under target by more than the tolerance); over-delivery, grace period, end of contract "
          "never a delivery fault) and over the close/retry loop (reason matches cause over the regenerated errors.Is chain, k failures "
          "=> k+1 transactions with the same reason, closed-first => no transaction). The real GetMaxGlobalError and the real "
-         "checkIncomingHashrate (virtual time) are run against the definitions on boundary grids and seeded inputs.",
-    technique="Lean 4 proofs over Go->Lean translated definitions (Rat) + differential correspondence",
+         "checkIncomingHashrate (virtual time) are run against the definitions on boundary grids and seeded inputs; the real "
+         "ControllerBuyer.Run with its watcher and the real Ethereum store runs against a fake node that takes, refuses, reverts and "
+         "mines transactions, and the transactions it sent are judged against the model's close loop and the property's clauses "
+         "(nothing without a fault, the verdict's reason, retry until success, none after success, no giving up, the loop ends once "
+         "somebody else has closed the contract).",
+    technique="Lean 4 proofs over Go->Lean translated definitions (Rat) + differential correspondence + trace monitor over the real buyer controller against a fake Ethereum node under synctest",
     design="5/C10", engine="contract")
 
 CHECKS["C20"] = dict(
@@ -77,8 +81,10 @@ CHECKS["C17"] = dict(
          "when propagation is on, the destination is not lightning-style (no @ in user, no pplp in host), the miner name is not a "
          "hex address and has a suffix; both code paths of the authorize handler agree; contract hashrate carries exactly the "
          "contract address; copying/adjusting a URL changes nothing else. The real functions (lib, proxy, seller watcher) are "
-         "compared with the model on generated names x URLs.",
-    technique="Lean 4 proofs over a functional model + differential correspondence of the real functions",
+         "compared with the model on generated names x URLs, and the names the pools actually see are judged on the wire: shares "
+         "forwarded in real proxy sessions (session monitor) and the authorize of real handshakes incl. contract connections "
+         "(compared with the handshake model, whose credentials are this model's).",
+    technique="Lean 4 proofs over a functional model + differential correspondence of the real functions + session / handshake harnesses judging the names on the wire",
     design="5/C17", engine="proxy")
 
 CHECKS["C18"] = dict(
